@@ -31,7 +31,9 @@ RULE = ("one run = 1 tracker (or a pool of 2-3) fed battery and inverter message
         "+1us / x2), set-power results succeeded/failed/not-mentioned at drawn instants incl. exactly at the end of a "
         "blocking period, two results back to back in one loop iteration (pool), with exact (no cost) or noisy (cost + stalls) timing; non-trivial = at least one disqualifying "
         "message/silence or failed result; distinct = abstract digest of (event kind, stream) sequence; model states = "
-        "(bat_ok, inv_ok, blocked, status) visited")
+        "(bat_ok, inv_ok, blocked, status) visited"
+        " Also: messages stamped in other UTC offsets, a fresh NaN object for a missing capacity, fractional max"
+        " data age / blocking duration, a streak of 50-62 consecutive failures (5% of exact runs).")
 QUICK_RUNS = 3000
 THOROUGH_RUNS = 200_000
 EXPECT_PROBES = ["msg_aged_exactly_max", "msg_aged_max_plus_1us", "silence_exactly_max_age", "silence_max_minus_1us",
